@@ -690,9 +690,10 @@ static void drive(const Src& src, vf::Draw& d, vf::Case& c, const Problem& P, co
         Args a = draw_args(d, P);
         Guess G = draw_guess(d, P, s, RULES[a.rule]);
         std::ostringstream os;
-        os << (G.kind == 0 ? "compute(" : "compute_with_guess(") << GUESS_NAMES[G.kind];
-        if (G.kind != 0)
-            os << "[" << G.V.cols() << " cols]" << G.note << ",";
+        if (G.kind == 0)
+            os << "compute(";
+        else
+            os << "compute_with_guess(" << GUESS_NAMES[G.kind] << "[" << G.V.cols() << " cols]" << G.note << ",";
         os << RULE_NAMES[a.rule] << ",maxit=" << a.maxit << ",tol=" << vf::num(a.tol) << (a.default_tol ? "(default)" : "") << ")";
         c.add_desc(os.str());
         c.cls(std::string("rule/") + RULE_NAMES[a.rule]);
@@ -818,13 +819,12 @@ static std::string match(const vf::Violation& v, const vf::Case& c)
     // KF-C15-1 (D10): the DPR correction r_i / (theta - a_ii) is formed with theta == a_ii: a non-finite correction vector
     // enters the basis (the operator is handed a non-finite vector although matrix and initial space are finite) while
     // the search space was still within n columns
-    if (nan_within_n && (v.kind == "nonfinite" || v.kind == "eigen_assert"))
+    if (nan_within_n && v.kind == "nonfinite")
         return "dpr_zero_denominator";
     // KF-C15-2 (D15 as far as it is real): set_max_search_space_size() does not clamp to n as the constructor does; with max > n the
     // restart test never fires in time and the basis handed to the operator has more than n columns. (With max <= n the extension
     // beyond n is transient: the restart at the top of the next iteration discards it before it is used.)
-    if (c.f("max_size") > n && c.f("max_size_seen") > n && !nan_within_n &&
-        (v.kind == "eigen_assert" || v.kind == "nonfinite" || v.kind == "unit_norm" || v.kind == "orthonormality" || v.kind == "residual"))
+    if (c.f("max_size") > n && c.f("max_size_seen") > n && !nan_within_n && (v.kind == "unit_norm" || v.kind == "orthonormality"))
         return "search_space_exceeds_n";
     // KF-C15-4: the first restart asks for initial-size Ritz vectors although the user's space had fewer columns
     // (the Ritz pairs of the previous iteration are fewer than that): out-of-range block. The operator has seen only the
